@@ -21,7 +21,9 @@ TUP9 = ("Tup", ("Int",) * 9)
 # --- _psposix.disk_usage -----------------------------------------------------------------------------------
 
 def setup_du(it, cfg):
-    vals = {k: it.fresh(k, "Int") for k in ("f_blocks", "f_bfree", "f_bavail", "f_frsize")}
+    # every statvfs field is there and independent (f_bsize is the preferred I/O size: block counts are in f_frsize units)
+    vals = {k: it.fresh(k, "Int") for k in ("f_bsize", "f_frsize", "f_blocks", "f_bfree", "f_bavail", "f_files",
+                                             "f_ffree", "f_favail", "f_flag", "f_namemax")}
     for v in vals.values():
         it.assume(smt.Cmp(">=", v, I(0)))
     it.assume(smt.Cmp("<=", vals["f_bfree"], vals["f_blocks"]))
@@ -49,7 +51,7 @@ REGISTRY.add(Contract(
         "<= 0.05 * (result.used + result.free))",
         "implies(result.used + result.free == 0, result.percent == 0.0)",
     ],
-    raises={}, canaries=["result.used == result.total"], replay=None,
+    raises={}, canaries=["result.used == result.total"], replay="c09:disk_usage",
     note="used = total - free-for-root, free = space for unprivileged users, percent = used/(used+free)*100"))
 
 
